@@ -36,7 +36,7 @@ CLAIMED.update({
                 text="model_checking: as C03 for MapOf[string,any], MapOf[int,int], MapOf[struct,string]; the pinned hasher forces bucket and h2 collisions for every table generation.",
                 design_ref="5 C03/C04", note=CONC_NOTE),
     "C05": dict(technique="MapLin/CacheLin result + user-function-count clauses (aspects fn, view) on scheduler histories with k racers; CacheSem sequential fn-count clause; exhaustive TTLCache model",
-                text="model_checking: k=2..3 (thorough 8) racers of LoadOrStore/LoadOrCompute/GetOrSet/GetOrCompute/Compute on absent, live and expired-uncleaned keys with bucket-mate writers and a grow between attempt and retry; user functions count their invocations and yield inside; every history is decided by TLC (exactly one loaded=false, same value for all, fn count = what the linearization dictates).",
+                text="model_checking: k=2..3 (thorough 5) racers of LoadOrStore/LoadOrCompute/GetOrSet/GetOrCompute/Compute on absent, live and expired-uncleaned keys with bucket-mate writers and a grow between attempt and retry; user functions count their invocations and yield inside; every history is decided by TLC (exactly one loaded=false, same value for all, fn count = what the linearization dictates).",
                 design_ref="5 C05", note=CONC_NOTE),
     "C06": dict(technique="CacheLin eviction queue (each instance at most once, only by the call that removed it, callback in force) + CacheSem sequential ledger clause (aspect evict); scheduler histories of overlapping removers, re-entrant callbacks",
                 text="model_checking: callback ledger events of the real cache under overlapping DeleteExpired/Delete/GetAndDelete/Set/Compute, callback swaps and re-entrant callbacks are matched by TLC against queued evictions of the linearizable machine; sequential traces check fired-iff-removed against Count deltas; the exhaustive TTLCache model checks the ledger clause on the code-shaped model.",
